@@ -1,0 +1,254 @@
+//go:build verif
+
+package main
+
+// Driver for the correspondence check of property C07 (/verif), clause "a request with no
+// route receives the configured no-route status and page", for a page that changes at run
+// time.  The driver installs a scripted registry.Backend whose WatchNoRouteHTML channel is
+// unbuffered (as the consul backend's is) and starts the real watchNoRouteHTML of main.go
+// once, as main() does.  The jobs are consecutive pieces of ONE history of that watcher: the
+// registry delivers a page (set, replaced, reported again unchanged, removed = the empty
+// value) and requests that have no route are served in between, per job through a proxy
+// built by the real newHTTPProxy with the job's proxy.noroute.status (ResponseRecorder, or a
+// loopback listener), against a routing table whose only upstream counts its hits.
+// The driver never writes the noroute store itself.  The watcher handles one value after the
+// other: once a further send on the unbuffered channel has been accepted the previous value
+// has been handled completely.  Before a request the driver therefore sends the last value
+// once more (a registry may report an unchanged value at any time; handling it changes
+// nothing, whenever that happens) and records that send in the history it reports back.
+// Reads the jobs from VERIF_C07_IN, writes the results to VERIF_C07_OUT; skipped otherwise.
+
+import (
+	"bytes"
+	"encoding/json"
+	"fmt"
+	"io"
+	"log"
+	"net/http"
+	"net/http/httptest"
+	"os"
+	"sort"
+	"sync/atomic"
+	"testing"
+	"time"
+
+	"github.com/fabiolb/fabio/config"
+	"github.com/fabiolb/fabio/metrics"
+	"github.com/fabiolb/fabio/noroute"
+	"github.com/fabiolb/fabio/proxy"
+	"github.com/fabiolb/fabio/registry"
+	"github.com/fabiolb/fabio/route"
+)
+
+type verifC07Step struct {
+	Kind int    // 0: the registry delivers Page ("" = the page was removed / is not configured); 1: a request
+	Page []byte `json:",omitempty"`
+	// Kind 1
+	Method, Host, Target string `json:",omitempty"`
+	Body                 []byte `json:",omitempty"`
+}
+
+type verifC07Job struct {
+	Status int  // proxy.noroute.status
+	Wire   bool // requests over a loopback listener instead of a ResponseRecorder
+	Steps  []verifC07Step
+}
+
+type verifC07Obs struct {
+	Status int
+	Hdrs   [][2]string // sorted by name
+	Body   []byte
+	Hits   int // upstream requests started while this request was served
+	Panic  string
+}
+
+type verifC07Res struct {
+	Err     string
+	History []verifC07Step // what was done, in order, including the repeated sends
+	Obs     []verifC07Obs  // one per request of History
+}
+
+type verifC07Backend struct {
+	html  chan string
+	asked chan struct{}
+}
+
+func (b *verifC07Backend) Register([]string) error                          { return nil }
+func (b *verifC07Backend) DeregisterAll() error                             { return nil }
+func (b *verifC07Backend) Deregister(string) error                          { return nil }
+func (b *verifC07Backend) ManualPaths() ([]string, error)                   { return nil, nil }
+func (b *verifC07Backend) ReadManual(string) (string, uint64, error)        { return "", 0, nil }
+func (b *verifC07Backend) WriteManual(string, string, uint64) (bool, error) { return true, nil }
+func (b *verifC07Backend) WatchServices() chan string                       { return make(chan string) }
+func (b *verifC07Backend) WatchManual() chan string                         { return make(chan string) }
+func (b *verifC07Backend) WatchNoRouteHTML() chan string {
+	close(b.asked)
+	return b.html
+}
+
+func verifC07Flatten(h http.Header) [][2]string {
+	ks := make([]string, 0, len(h))
+	for k := range h {
+		ks = append(ks, k)
+	}
+	sort.Strings(ks)
+	out := [][2]string{}
+	for _, k := range ks {
+		for _, v := range h[k] {
+			out = append(out, [2]string{k, v})
+		}
+	}
+	return out
+}
+
+func TestVerifC07(t *testing.T) {
+	inFile, outFile := os.Getenv("VERIF_C07_IN"), os.Getenv("VERIF_C07_OUT")
+	if inFile == "" || outFile == "" {
+		t.Skip("VERIF_C07_IN / VERIF_C07_OUT not set")
+	}
+	var jobs []verifC07Job
+	b, err := os.ReadFile(inFile)
+	if err != nil {
+		t.Fatal(err)
+	}
+	if err := json.Unmarshal(b, &jobs); err != nil {
+		t.Fatal(err)
+	}
+	log.SetOutput(io.Discard)
+
+	// the only upstream of the table; a request without a route must never reach it
+	var hits int32
+	upstream := httptest.NewServer(http.HandlerFunc(func(w http.ResponseWriter, r *http.Request) {
+		atomic.AddInt32(&hits, 1)
+		io.WriteString(w, "upstream")
+	}))
+	defer upstream.Close()
+	tbl, err := route.NewTable(bytes.NewBufferString("route add svc known.example.com/ " + upstream.URL))
+	if err != nil {
+		t.Fatal(err)
+	}
+	route.SetTable(tbl)
+	defer route.SetTable(make(route.Table))
+	oldBackend := registry.Default
+	defer func() { registry.Default = oldBackend }()
+	if got := noroute.GetHTML(); got != "" {
+		t.Fatalf("the noroute store of a fresh process holds %q", got)
+	}
+	be := &verifC07Backend{html: make(chan string), asked: make(chan struct{})}
+	registry.Default = be
+	go watchNoRouteHTML(&config.Config{}) // as main() starts it
+	select {
+	case <-be.asked:
+	case <-time.After(20 * time.Second):
+		t.Fatal("watchNoRouteHTML did not ask the registry for its channel")
+	}
+
+	client := &http.Client{
+		Transport:     &http.Transport{DisableCompression: true},
+		CheckRedirect: func(*http.Request, []*http.Request) error { return http.ErrUseLastResponse },
+		Timeout:       20 * time.Second,
+	}
+	stats := &proxy.HttpStatsHandler{Noroute: metrics.DiscardProvider{}.NewCounter("notfound")}
+
+	var last []byte
+	pending := false // a value was sent and nothing after it yet
+	results := make([]verifC07Res, len(jobs))
+	for ji, job := range jobs {
+		res := &results[ji]
+		res.History, res.Obs = []verifC07Step{}, []verifC07Obs{}
+		cfg := &config.Config{
+			Proxy:         config.Proxy{Strategy: "rnd", Matcher: "prefix", NoRouteStatus: job.Status},
+			GlobCacheSize: 1000,
+		}
+		h := newHTTPProxy(cfg, stats)
+		var srv *httptest.Server
+		if job.Wire {
+			srv = httptest.NewServer(h)
+		}
+
+		send := func(page []byte) bool {
+			select {
+			case be.html <- string(page):
+				res.History = append(res.History, verifC07Step{Kind: 0, Page: page})
+				return true
+			case <-time.After(20 * time.Second):
+				res.Err = "watchNoRouteHTML does not take updates"
+				return false
+			}
+		}
+	steps:
+		for _, st := range job.Steps {
+			if st.Kind == 0 {
+				if !send(st.Page) {
+					break steps
+				}
+				last, pending = st.Page, true
+				continue
+			}
+			if pending {
+				if !send(last) {
+					break steps
+				}
+				pending = false
+			}
+			before := atomic.LoadInt32(&hits)
+			var o verifC07Obs
+			if job.Wire {
+				req, err := http.NewRequest(st.Method, srv.URL+st.Target, bytes.NewReader(st.Body))
+				if err != nil {
+					res.Err = "request: " + err.Error()
+					break steps
+				}
+				req.Host = st.Host
+				resp, err := client.Do(req)
+				if err != nil {
+					res.Err = "request: " + err.Error()
+					break steps
+				}
+				o.Status, o.Hdrs = resp.StatusCode, verifC07Flatten(resp.Header)
+				o.Body, _ = io.ReadAll(resp.Body)
+				resp.Body.Close()
+			} else {
+				req := httptest.NewRequest(st.Method, "http://"+st.Host+st.Target, bytes.NewReader(st.Body))
+				req.Host = st.Host
+				w := httptest.NewRecorder()
+				func() {
+					defer func() {
+						if v := recover(); v != nil {
+							o.Panic = fmt.Sprint(v)
+						}
+					}()
+					h.ServeHTTP(w, req)
+				}()
+				o.Status, o.Hdrs, o.Body = w.Code, verifC07Flatten(w.Header()), w.Body.Bytes()
+			}
+			if o.Body == nil {
+				o.Body = []byte{}
+			}
+			o.Hits = int(atomic.LoadInt32(&hits) - before)
+			res.History = append(res.History, verifC07Step{Kind: 1, Method: st.Method, Host: st.Host, Target: st.Target, Body: st.Body})
+			res.Obs = append(res.Obs, o)
+		}
+		if srv != nil {
+			srv.Close()
+		}
+	}
+
+	// the hit counter does count: a routed request reaches the upstream once
+	{
+		cfg := &config.Config{Proxy: config.Proxy{Strategy: "rnd", Matcher: "prefix"}, GlobCacheSize: 1000}
+		h := newHTTPProxy(cfg, stats)
+		before := atomic.LoadInt32(&hits)
+		req := httptest.NewRequest("GET", "http://known.example.com/x", nil)
+		w := httptest.NewRecorder()
+		h.ServeHTTP(w, req)
+		if d := atomic.LoadInt32(&hits) - before; d != 1 || w.Body.String() != "upstream" {
+			t.Fatalf("self-check: a routed request reached the upstream %d times, body %q", d, w.Body.String())
+		}
+	}
+
+	ob, _ := json.Marshal(results)
+	if err := os.WriteFile(outFile, ob, 0o644); err != nil {
+		t.Fatal(err)
+	}
+}
